@@ -1,6 +1,6 @@
 """C10 -- reported neighbours are the geometric neighbours.
 Premises of the half-edge invariants J4-J6 (DESIGN.md A.1)."""
-from .. import meshrules
+from .. import meshrules, curverules
 
 LEVEL = 'other'
 META = {
@@ -27,6 +27,8 @@ def run(prog, report, tier):
     meshrules.check_initial_wiring(prog, report)
     meshrules.check_ownership(prog, report)
     meshrules.check_vreuse(prog, report)
+    meshrules.check_closure(prog, report)
+    curverules.check_polygon_ctor(prog, report)
     report.not_decided.append(
         'the history-quantified statement itself (exactly the leaves '
         'sharing positive length): it follows from J4-J6 by the paper '
